@@ -198,11 +198,33 @@ def probe_vec_flags(notes):
             "inc_before_call": ok_case("i1", [2, 9001])}
 
 
+def probe_wrapper(notes):
+    """convert_vec_in_place against try_convert_vec_in_place on probe cases (vecdrv runs both on every script without an
+    Err item and reports any difference in outcome, outputs, calls, drops, allocation): empty input with spare capacity,
+    refused pairs with and without elements, an ordinary conversion with an abandoned element, a panicking converter"""
+    from .common import TARGET, harness_build, sh
+    ok, o = harness_build(["vecdrv"])
+    if not ok:
+        notes.append("vecdrv does not build: the probe of the wrapper was not run")
+        return False
+    cases = "w1 tok 0 3\nw2 m_size_up 0 2\nw3 m_align_up 2 0 0 0\nw4 tok 3 1 0 2 0\nw5 tok 3 1 0 6 0\nw6 zst 2 0 0 0\n"
+    rc, out = sh([os.path.join(TARGET, "debug", "vecdrv")], stdin=cases.encode(), timeout=120)
+    seen = 0
+    for line in out.splitlines():
+        m = re.match(r"(\w+) ([\d,]+) # ?(.*)$", line)
+        if m:
+            seen += 1
+            if m.group(3).strip():
+                return False
+    return seen == 6
+
+
 def scan_runtime():
     """T1: facts of truc_runtime/src/{data,convert}.rs through the syn-based translator"""
     lines, notes = run_rtscan()
     conv = dict(guard_size=False, guard_align=False, inc_before_call=False, free_on_failure=False, same_payload=False)
     prim = {n: ("Unknown", "Unknown") for n in ("read", "write", "get", "get_mut")}
+    wrapper = False
     for l in lines or []:
         w = l.split()
         if not w:
@@ -215,6 +237,8 @@ def scan_runtime():
             for kv in w[1:]:
                 k, v = kv.split("=")
                 conv[k] = v == "1"
+        elif w[0] == "wrapper" and len(w) == 2:
+            wrapper = w[1] == "delegates=1"
     if not all(conv.values()):
         # a fact the translator could not read off the source shape (a restructured control flow looks the same as
         # a wrong one to it) is established by execution instead; what the probe refutes stays false
@@ -223,6 +247,12 @@ def scan_runtime():
             if not conv[k] and probe.get(k):
                 conv[k] = True
                 notes.append("convert.rs: `%s` not recognised in the source shape; established by executing the probe cases" % k)
+    if not wrapper:
+        # same rule for the wrapper: a shape the translator does not read is decided by executing probe cases
+        if probe_wrapper(notes):
+            wrapper = True
+            notes.append("convert.rs: the delegation of convert_vec_in_place not recognised in the source shape; established by executing the probe cases")
+    conv["wrapper_delegates"] = wrapper
     return conv, prim, notes
 
 
@@ -242,6 +272,7 @@ def write_current():
         lines.append("(* note: %s *)" % n.replace("*)", "* )"))
     lines.append("Definition vec_flags : flags := mkFlags %s %s %s %s %s." % tuple(
         coq_bool(conv[k]) for k in ("guard_size", "guard_align", "inc_before_call", "free_on_failure", "same_payload")))
+    lines.append("Definition wrapper_delegates : bool := %s." % coq_bool(conv.get("wrapper_delegates", False)))
     for k, v in flags.items():
         lines.append("Definition %s : bool := %s." % (k, coq_bool(v)))
     lines.append("Inductive origin := Unique | SharedRO | UnknownOrigin.")
